@@ -12,9 +12,9 @@ SEQ = ("explicit-state enumeration of every operation sequence up to a depth bou
 
 # id -> (level, technique, text, note, design_ref)
 CHECKS = {
- "C01": ("model_checking", SEQ, "All sequences of length<=3 (quick)/4 (thorough) over a 16-op write alphabet; conservation per asset checked in every view (volumes listing, aggregated balances, PIT in both date modes at every recorded instant, raw accounts_volumes and moves).", PGSIM_NOTE, "5 Group A"),
+ "C01": ("model_checking", SEQ, "All sequences of length<=3 (quick)/4 (thorough) over a 16-op write alphabet; conservation per asset checked in every view (volumes listing, aggregated balances, PIT in both date modes at every recorded instant, raw accounts_volumes and moves). The same on a twin ledger into which the export of every enumerated history is imported.", PGSIM_NOTE, "5 Group A"),
  "C02": ("model_checking", SEQ, "All sequences of length<=3/4 over the write alphabet; volumes from GetAccount/ListAccounts/GetVolumesWithBalances/GetAggregatedBalances equal the fold of committed postings (failed and dry-run writes excluded), from the live process and from a freshly attached one. Before that, every sequence of length<=3/5 over a bucket-lifecycle alphabet (a neighbour ledger created in the same bucket, soft delete and restore of the bucket, writes on both) with the same comparison for every routable ledger. The main configuration also evaluates the comparison on a twin ledger into which the export of every enumerated history is imported.", PGSIM_NOTE, "5 Group A"),
- "C03": ("model_checking", SEQ, "All sequences of length<=3/4; for every transaction after every sequence: postCommitVolumes, JSON preCommitVolumes, per-move post-commit volumes and log payloads equal the reference; re-checked after every later write (immutability).", PGSIM_NOTE, "5 Group A"),
+ "C03": ("model_checking", SEQ, "All sequences of length<=3/4; for every transaction after every sequence: postCommitVolumes, JSON preCommitVolumes, per-move post-commit volumes and log payloads equal the reference; re-checked after every later write (immutability). The same on a twin ledger into which the export of every enumerated history is imported.", PGSIM_NOTE, "5 Group A"),
  "C04": ("model_checking", SEQ, "All sequences of length<=3/5 over creates with past/equal/future effective timestamps (ties forced) and reverts; effective volumes per transaction and per account at PIT equal the fold in (effective timestamp, insertion order). The set_effective_volumes/update_effective_volumes triggers are executed from the migration text. The same on a twin ledger into which the export of every enumerated history is imported.", PGSIM_NOTE, "5 Group A"),
  "C05": ("model_checking", SEQ, "All sequences of length<=3/4; PIT and (OOT,PIT) reads at every recorded instant +-1us in both date modes equal the reference folds; account/transaction visibility and reverted flag at t. The same reads with the same reference on a twin ledger (other bucket) into which the export of every enumerated history is imported.", PGSIM_NOTE, "5 Group A"),
  "C08": ("model_checking", SEQ, "Sequential half: all sequences of length<=3/4 over every write kind plus failing and dry-run writes; exactly one log per successful write and none otherwise, ids increasing, state rebuilt from log payloads alone equals every read. Concurrent half (K2): 4 scenarios of 2-3 concurrent writers (disjoint creates, mixed kinds with a dry run, a failing writer in between, HASH_LOGS=DISABLED), every schedule with <=2 preemptions (thorough: all): one log per committed write, log ids strictly increasing along the order in which COMMITs executed, final state == replay of the committed writes. 1 known finding (HASH_LOGS != SYNC: log ids follow statement order, not commit order).", PGSIM_NOTE + "; concurrent half: Go code between two driver calls is executed atomically; commit order = order in which COMMIT calls were scheduled", "5 Group B"),
